@@ -1,6 +1,7 @@
 mod adapter;
 mod alloc;
 mod drive;
+mod fpenv;
 mod replay;
 mod tables;
 mod units;
@@ -87,10 +88,20 @@ fn cmd_replay(args: &[String]) -> i32 {
     let mut units = units::unit_list(&tier, seed);
     if let Some(u) = arg(args, "--unit") {
         let v: Value = serde_json::from_str(&u).expect("--unit json");
-        units = vec![units::Unit { a: v["a"].as_f64().unwrap(), b: v["b"].as_f64().unwrap(), av: v["av"].as_f64().unwrap(), big: v["big"].as_f64().unwrap() }];
+        units = vec![units::Unit { a: v["a"].as_f64().unwrap(), b: v["b"].as_f64().unwrap(), av: v["av"].as_f64().unwrap(), big: v["big"].as_f64().unwrap(), nz: v["nz"].as_bool().unwrap_or(false) }];
     }
     if arg(args, "--unit").is_none() && matches!(prop.as_str(), "C04" | "C05" | "C06" | "C07" | "C08" | "C09" | "C10" | "C12" | "C17" | "C18") {
         units.extend(units::warped_units(&tier));
+    }
+    if arg(args, "--unit").is_none() && prop == "C08" {
+        units.push(units::Unit::new(0.01, 0.0)); // cents: whether x/x-style re-associations are exact depends on the digits of the level
+        units.push(units::Unit::new(0.001, 0.0));
+    }
+    if arg(args, "--unit").is_none() && prop == "C05" {
+        // signed zeros: the lattice value 0 is fed as -0.0 on every other call of an instance (numerically the same stream, so every
+        // expectation stands; bit-for-bit comparisons between a clone and its original, or two instances with one history, now
+        // also see which of two equal zeros an implementation picks)
+        units.push(units::Unit { nz: true, ..units::Unit::new(1.0, 0.0) });
     }
     if arg(args, "--unit").is_none() && prop == "C09" {
         // lattice steps of one or two ulps on top of a large offset: cancellation at the last bit (dispersion must stay >= 0)
@@ -284,7 +295,7 @@ fn cmd_streams(args: &[String]) -> i32 {
     let mut units = units::unit_list(&tier, seed);
     if let Some(u) = arg(args, "--unit") {
         let v: Value = serde_json::from_str(&u).expect("--unit json");
-        units = vec![units::Unit { a: v["a"].as_f64().unwrap(), b: v["b"].as_f64().unwrap(), av: v["av"].as_f64().unwrap(), big: v["big"].as_f64().unwrap() }];
+        units = vec![units::Unit { a: v["a"].as_f64().unwrap(), b: v["b"].as_f64().unwrap(), av: v["av"].as_f64().unwrap(), big: v["big"].as_f64().unwrap(), nz: v["nz"].as_bool().unwrap_or(false) }];
     }
     let max_units: usize = arg(args, "--max-units").and_then(|s| s.parse().ok()).unwrap_or(1000);
     units.truncate(max_units);
